@@ -231,6 +231,37 @@ VIEW_TYPES = ("JsonArrayConst", "JsonObjectConst", "JsonVariantConst", "JsonArra
 DEST_CLASSES = ("JsonArray", "JsonObject", "JsonDocument")
 
 
+def _no_owned_chars(fn, j, sd):
+    """The use j of the string source is reachable only through true edges of
+    tests made solely of isNull()/isLinked() calls on that source (a null or
+    linked string owns no characters of the document).  `A || B` reaches its
+    then-block by two edges, so this is an edge-removal reachability test, not
+    a dominating guard."""
+    pj = fn.block_of(j)
+    if pj is None:
+        return False
+    cut = set()
+    for blk, cond, succ in fn.branch_conditions():
+        calls = [fn.s(x) for x in fn.walk(cond) if fn.s(x)["k"] in P.CALL_KINDS]
+        if calls and all(c.get("callee", {}).get("q", "").split("::")[-1] in ("isNull", "isLinked") and "obj" in c and
+                         fn.s(fn.strip(c["obj"], casts=True)).get("ref", {}).get("d") in sd for c in calls) and \
+                not any(fn.s(x)["k"] == "UnaryOperator" and fn.s(x).get("op") == "!" for x in fn.walk(cond)):
+            cut.add((blk["id"], succ[0]))
+    if not cut:
+        return False
+    blocks = fn.blocks()
+    seen, stack = set(), [fn.cfg["entry"]]
+    while stack:
+        x = stack.pop()
+        if x in seen or x < 0:
+            continue
+        seen.add(x)
+        for k_, s_ in enumerate(blocks[x]["succ"]):
+            if s_ >= 0 and (x, s_) not in cut:
+                stack.append(s_)
+    return pj[0] not in seen
+
+
 def alias(ctx, prog, rule="R-ALIAS"):
     """Assignment between values of the same document (C04: "including a
     value's own ancestors and descendants").  A copy routine has a source
@@ -284,6 +315,8 @@ def alias(ctx, prog, rule="R-ALIAS"):
             for j in fn.walk():
                 sj = fn.s(j)
                 if sj["k"] == "DeclRefExpr" and sj["ref"]["d"] in sd:
+                    if fn.name == "setString" and _no_owned_chars(fn, j, sd):
+                        continue    # a null or linked string owns no characters of the document
                     pj = fn.block_of(j)
                     if pc is None or pj is None:
                         continue
